@@ -39,3 +39,4 @@ import Lace.Props.C10Fuel
 #print axioms Lace.C10.resume_fuel_mono
 #print axioms Lace.C10.cmd_fuel_mono
 #print axioms Lace.C10.cmd_fuel_agree
+#print axioms Lace.C10.script_fuel_mono
